@@ -85,6 +85,13 @@ def compile_expression(
     # Create mapping from variable name to array index
     var_indices = {var.name: i for i, var in enumerate(variables)}
 
+    from optyx.core.parameters import Parameter
+
+    if isinstance(expr, Parameter):
+        # Parameters hash and compare by name, so the cache could hand out a closure
+        # bound to a *different* Parameter object with the same name (another model).
+        return _build_evaluator(expr, var_indices)
+
     # Generate and cache the compiled function
     return _compile_cached(
         expr, tuple(var.name for var in variables), tuple(var_indices.items())
